@@ -255,6 +255,24 @@ def run(ctx):
             for ab in acc:
                 ok = body.dominates(blk, ab)
                 ctx.ob("V3", body.defp, "salt-recorded-before-accept", loc(t["sp"]), ok, "set_nonce dominates the accepting return" if ok else "accepting return reachable without recording the salt")
+            # the established state (the session decoder kept in the codec) is installed only after the salt is recorded:
+            # otherwise a later call continues with that decoder although this request never entered the replay cache
+            gs = [g for g in gates_of_value(body, t["dest"][0]) if g.kind == "bool"]
+            for bb in body.rpo():
+                for s_ in body.stmts(bb):
+                    if s_["k"] not in ("assign", "setdiscr"):
+                        continue
+                    pl = s_["p"]
+                    if pl[0] != 1 or not pl[1] or pl[1][0][0] != "deref" or len(pl[1]) < 2:
+                        continue
+                    if gs:
+                        ok = any(body.edge_dominates(g.block, g.bool_target(True), bb) for g in gs)
+                    else:
+                        ok = body.dominates(blk, bb) and blk != bb
+                    ctx.ob("V3", body.defp, "state-installed-after-salt-recorded", loc(s_["sp"]), ok,
+                           "the codec's state is written only behind the successful recording of the salt" if ok else
+                           "the codec's own state (session decoder) is written on a path that has not recorded the salt: the request is continued "
+                           "by later calls without ever entering the replay cache, so a copy of it is accepted again")
             # same salt local as the lookup
             same = False
             p_set = op_place(t["args"][1]) if len(t["args"]) > 1 else None
